@@ -215,3 +215,10 @@ impl core::hash::Hasher for RecHasher {
         }
     }
 }
+
+/// Stub for `core::slice::index::slice_index_fail`: the original only formats its panic message (three
+/// `const_panic!` arms); replacing it by a plain panic halves the size of every program that indexes a
+/// slice with a symbolic range.  Still diverges, still reported as a failing check when reachable.
+pub fn stub_slice_index_fail(_start: usize, _end: usize, _len: usize) -> ! {
+    panic!("slice index out of range (stubbed slice_index_fail)")
+}
